@@ -73,7 +73,7 @@ PROPS = {
         floor=50,
         builds=["harness"],
         legs=lambda tier, seed, scratch: [
-            dict(cmd="c03", name="c03", cases=_q(tier, 1500, 20000)),
+            dict(cmd="c03", name="c03", cases=_q(tier, 3000, 30000)),
             dict(cmd="c03r", name="c03-concurrent-reopened-readers", cases=_q(tier, 96, 1500), stall_s=60),
         ],
         rule=GEN_NOTE + "items_per_slot in {1,2,3,5}, block_size in {2,3,4} so ranges cross blocks and index nodes. Per case one "
@@ -97,7 +97,7 @@ PROPS = {
         level="exploration",
         floor=50,
         builds=["harness"],
-        legs=_legs_simple("c04", 1500, 20000),
+        legs=_legs_simple("c04", 4000, 40000),
         rule=GEN_NOTE + "bigBed layouts incl. 'one very long entry followed by many short ones', items_per_slot in {1,2,3,5}, "
         "block_size in {2,3,4}. Per case a history of 120/300 queries (0 <= s < e, ends from the boundary set incl. "
         "midpoints of entries) on plain, caching and reopened readers, repeats and get_interval_move as in C03. Oracle "
@@ -185,7 +185,7 @@ PROPS = {
         floor=20,
         builds=["harness"],
         legs=lambda tier, seed, scratch: [
-            dict(cmd="c11w", name="c11-writer-digests", cases=_q(tier, 64, 600), stall_s=60),
+            dict(cmd="c11w", name="c11-writer-digests", cases=_q(tier, 128, 800), stall_s=60),
             dict(cmd="c11c", name="c11-converters", cases=_q(tier, 200, 3000), stall_s=60),
         ] + ([_san().tsan_leg("c11-tsan", "c11w", 48, tier, seed, scratch)] if tier != "quick" else []),
         rule="A case of leg c11-writer-digests is one class = (input with 4..8 chromosomes of uneven size, the first the "
@@ -246,8 +246,8 @@ PROPS = {
         floor=50,
         builds=["harness", "relassert"],
         legs=lambda tier, seed, scratch: [
-            dict(cmd="c13", name="c13-release", cases=_q(tier, 3000, 60000), stall_s=20),
-            dict(cmd="c13", name="c13-debug-assertions", cases=_q(tier, 1500, 30000), stall_s=20, profile="relassert"),
+            dict(cmd="c13", name="c13-release", cases=_q(tier, 6000, 60000), stall_s=20),
+            dict(cmd="c13", name="c13-debug-assertions", cases=_q(tier, 3000, 30000), stall_s=20, profile="relassert"),
         ],
         rule="Each case takes a valid 3..6-chromosome input (>= 3 items per chromosome) and injects exactly one violation: "
         "bigWig {out-of-order, overlapping, start > end, end > chromosome length}, bigBed {out-of-order starts, start > "
@@ -269,7 +269,7 @@ PROPS = {
         level="fault_enumeration",
         floor=20,
         builds=["harness"],
-        legs=_legs_simple("c14", 160, 3000, stall_s=300),
+        legs=_legs_simple("c14", 320, 3000, stall_s=300),
         rule="Per case one small input (<= 4 chromosomes, <= 12 items each, bigWig on even and bigBed on odd cases; compression, "
         "items_per_slot, block_size, zooms, inmemory, channel_size, one/two pass random) written into a recording sink "
         "that logs every write/seek/flush reaching it, once on the deterministic current-thread runtime and once on the "
@@ -405,7 +405,7 @@ PROPS = {
         level="exploration",
         floor=50,
         builds=["harness"],
-        legs=_legs_simple("c07", 8000, 200000),
+        legs=_legs_simple("c07", 12000, 200000),
         rule=GEN_NOTE + "items_per_slot in {1,2,3,5} and block_size in {2,3,4} so a zoom level spans several blocks; manual "
         "resolutions {1,4,7,10,13,100,400,1000,...} two times out of three. Every zoom block of every level is decoded "
         "by the independent walker (harness/src/walk.rs) and each record compared with statistics recomputed from the "
@@ -420,7 +420,7 @@ PROPS = {
         level="exploration",
         floor=50,
         builds=["harness"],
-        legs=_legs_simple("c08", 8000, 200000),
+        legs=_legs_simple("c08", 12000, 200000),
         rule=GEN_NOTE + "Same oracle as C07 with the per-base coverage depth of the entries as the signal (depth array built "
         "per base; only covered bases count). No entry (0,0) is generated (that input is C02's finding).",
         assumptions=["libdeflater is trusted to inflate blocks for the walker"],
